@@ -4,6 +4,7 @@ package main
 // inlined closures and the opaque fallback.
 
 import (
+	"strconv"
 	"fmt"
 	"regexp"
 	"go/ast"
@@ -19,6 +20,7 @@ type specCtx struct {
 	results []Value
 	preAlloc Term // alloc array before the call (for fresh())
 	lenient  bool // locals without a value on this path are unconstrained (ensures-local)
+	callArgs []Value // precall clauses: the argument values of the call being made (argIs)
 	facts    *[]Term // typing facts (slice lengths, integer ranges) of closed terms read while evaluating
 }
 
@@ -128,7 +130,7 @@ func (fv *FV) call(e *Env, x *ast.CallExpr) Value {
 			if !pc.Re.MatchString(fn.FullName()) {
 				continue
 			}
-			t := fv.specTermO(e, pc.Cl, &specCtx{old: fv.entry, preAlloc: fv.entry.alloc, lenient: true})
+			t := fv.specTermO(e, pc.Cl, &specCtx{old: fv.entry, preAlloc: fv.entry.alloc, lenient: true, callArgs: args})
 			fv.obligeNamed(e, "precall", fmt.Sprintf("precall:%s#%d", pc.Cl.Label, fv.siteOrd("precall"+pc.Cl.Label)), x,
 				fmt.Sprintf("call of %s is made only when %q", fn.FullName(), pc.Cl.Text), t)
 		}
@@ -140,7 +142,13 @@ func (fv *FV) call(e *Env, x *ast.CallExpr) Value {
 			return fv.inlineLit(e, lit, args)
 		}
 		fv.note("call through function value %s: opaque", exprStr(x.Fun))
-		return fv.opaqueCall(e, x, nil, recv, args, rt, true)
+		res := fv.opaqueCall(e, x, nil, recv, args, rt, true)
+		if rt != nil && isErrorType(rt) && res.K == kScalar {
+			// name the outcome: (err == nil) == fnAccepts(f, args)
+			fv.assume(e, eq(eq(res.T, tNull), fv.fnAcceptsTerm(e, fvT, args)))
+			fv.assumptionsUsed["a function-valued parameter returning error is treated as a deterministic predicate of its arguments (fnAccepts)"] = true
+		}
+		return res
 	}
 	if isIface {
 		if m, ok := libModels[fn.FullName()]; ok {
@@ -167,9 +175,29 @@ func (fv *FV) call(e *Env, x *ast.CallExpr) Value {
 		}
 	}
 	if u := fv.eng.unitOf(fn); u != nil && u.C != nil {
-		if x.Ellipsis.IsValid() || fn.Type().(*types.Signature).Variadic() {
-			fv.note("variadic call to %s: opaque", fn.FullName())
-		} else {
+		sigF := fn.Type().(*types.Signature)
+		switch {
+		case x.Ellipsis.IsValid():
+			fv.note("variadic call f(xs...) to %s: opaque", fn.FullName())
+		case sigF.Variadic():
+			// f(a, b, extra...) : the variadic parameter is a fresh slice holding the
+			// extra arguments (its length is exact, its contents are abstracted)
+			np := sigF.Params().Len()
+			if len(args) >= np-1 {
+				vt := sigF.Params().At(np - 1).Type()
+				sl := fv.freshValue(vt, "variadic")
+				n := len(args) - (np - 1)
+				if sl.K == kSlice {
+					fv.assume(e, and(eq(sl.Len, intLit(int64(n))), eq(sl.Off, intLit(0))))
+					if n == 0 {
+						fv.assume(e, eq(sl.T, tNull))
+					}
+				}
+				packed := append(append([]Value{}, args[:np-1]...), sl)
+				return fv.applyContract(e, x, u, recv, packed, rt)
+			}
+			fv.note("variadic call to %s with too few arguments: opaque", fn.FullName())
+		default:
 			return fv.applyContract(e, x, u, recv, args, rt)
 		}
 	}
@@ -212,6 +240,7 @@ func (fv *FV) pureResult(e *Env, fn *types.Func, rt types.Type, recv *Value, arg
 	v := fv.freshValue(rt, "r$"+fn.Name())
 	fv.nonNilResults(fn, v)
 	fv.assumeAllocated(e, v)
+	fv.applyBumps(e, fn, v)
 	return v
 }
 
@@ -286,18 +315,40 @@ func (fv *FV) opaqueCall(e *Env, x *ast.CallExpr, fn *types.Func, recv *Value, a
 		}
 		fv.havocAlloc(e)
 	}
-	if gv, ok := fv.eng.bumpVar(fn); ok {
+	v := fv.freshValue(rt, "r$"+sanitize(lastSeg(name)))
+	fv.nonNilResults(fn, v)
+	fv.assumeAllocated(e, v)
+	fv.applyBumps(e, fn, v)
+	return v
+}
+
+// applyBumps increments the ghost call counters (bump:/bumpok: classes) of fn.
+func (fv *FV) applyBumps(e *Env, fn *types.Func, v Value) {
+	for _, b := range fv.eng.bumpsOf(fn) {
+		gv := b.name
 		comp := "G$" + sanitize(gv)
 		if !fv.eng.ghostVarNamed(gv) {
 			fv.specErr("bump: class names ghost variable " + gv + " which no loaded contract file declares")
 		}
 		cur := fv.loadComp(e, comp, sInt, tNull)
-		fv.storeComp(e, comp, sInt, add(cur, intLit(1)), tNull)
+		inc := add(cur, intLit(1))
+		if b.onlyOK {
+			// bumpok: only calls that return a nil error are counted
+			errV := v
+			if v.K == kTuple && len(v.Tuple) > 0 {
+				errV = v.Tuple[len(v.Tuple)-1]
+			}
+			if errV.K == kScalar && errV.T.Sort == sRef {
+				inc = ite(eq(errV.T, tNull), inc, cur)
+			}
+		}
+		fv.storeComp(e, comp, sInt, inc, tNull)
 	}
-	v := fv.freshValue(rt, "r$"+sanitize(lastSeg(name)))
-	fv.nonNilResults(fn, v)
-	fv.assumeAllocated(e, v)
-	return v
+}
+
+func isErrorType(t types.Type) bool {
+	n, ok := types.Unalias(t).(*types.Named)
+	return ok && n.Obj().Pkg() == nil && n.Obj().Name() == "error"
 }
 
 func isIfaceMethod(fn *types.Func) bool {
@@ -990,6 +1041,91 @@ func (fv *FV) modLocations(pre *Env, cl *Clause, bind map[types.Object]Value) []
 }
 
 // ---------------------------------------------------------------------------
+// closureAcc records a function literal with a checked `closure N accepts P` clause.
+type closureAcc struct {
+	lit *ast.FuncLit
+	cl  *Clause
+	env *Env
+}
+
+// probeClosure checks `closure N accepts P`: the literal's body is executed
+// once with unconstrained arguments in a copy of the defining environment;
+// every return with a nil error must satisfy P.
+func (fv *FV) probeClosure(e *Env, lit *ast.FuncLit, cl *Clause, ref Term) {
+	sig, _ := fv.typeOf(lit).(*types.Signature)
+	if sig == nil || sig.Results().Len() == 0 {
+		fv.specErr("closure accepts: literal returns nothing")
+		return
+	}
+	fv.closureAccs[ref.S] = &closureAcc{lit: lit, cl: cl, env: e.clone()}
+	pe := e.clone()
+	bind := map[types.Object]Value{}
+	for i := 0; i < sig.Params().Len(); i++ {
+		p := sig.Params().At(i)
+		v := fv.freshValue(p.Type(), "clarg$"+p.Name())
+		fv.defineVar(pe, p, v, false)
+		bind[p] = v
+	}
+	saved, savedFrames := fv.inlineRet, fv.frames
+	fv.frames = nil
+	ctx := &inlineCtx{sig: sig}
+	fv.inlineRet = ctx
+	fv.inlineDepth++
+	fv.block(pe, lit.Body.List)
+	fv.inlineDepth--
+	fv.inlineRet, fv.frames = saved, savedFrames
+	last := sig.Results().Len() - 1
+	for k, ex := range ctx.exits {
+		if last >= len(ex.results) {
+			continue
+		}
+		ok := eq(ex.results[last].T, tNull)
+		p := fv.specTermO(ex.env, cl, &specCtx{old: e, bind: bind, preAlloc: e.alloc})
+		fv.obligeNamed(ex.env, "closure", fmt.Sprintf("%s@return%d", cl.Label, k+1), lit,
+			fmt.Sprintf("function literal returns a nil error only if %q", cl.Text), implies(ok, p))
+	}
+	if !pe.dead && sig.Results().Len() > 0 {
+		fv.specErr("closure accepts: literal body can fall off its end")
+	}
+}
+
+// fnAcceptsTerm is the predicate "calling function value f with args returns a
+// nil error" (same symbol as ufb("fnAccepts", f, args...) in contracts).
+func (fv *FV) fnAcceptsTerm(e *Env, f Value, args []Value) Term {
+	vals := append([]Value{f}, args...)
+	ts, sorts := fv.ufArgs(e, vals)
+	name := "uf$fnAccepts$" + sanitize(strings.Join(sorts, "_"))
+	fv.s.declFun(name, sorts, sBool)
+	t := app(sBool, name, ts...)
+	fv.instantiateAccepts(f, args, t)
+	return t
+}
+
+// instantiateAccepts: if f is a function literal with a checked accepts clause,
+// fnAccepts(f, args) implies the clause for these arguments.
+func (fv *FV) instantiateAccepts(f Value, args []Value, t Term) {
+	acc := fv.closureAccs[f.T.S]
+	if acc == nil {
+		return
+	}
+	var sig *types.Signature
+	if tv, ok := fv.u.Pkg.TypesInfo.Types[acc.lit]; ok {
+		sig, _ = tv.Type.(*types.Signature)
+	}
+	if sig == nil || sig.Params().Len() != len(args) {
+		return
+	}
+	bind := map[types.Object]Value{}
+	for i := 0; i < sig.Params().Len(); i++ {
+		bind[sig.Params().At(i)] = args[i]
+	}
+	savedSpec, savedInfo := fv.spec, fv.info
+	p := fv.specTermA(acc.env, acc.cl, &specCtx{old: acc.env, bind: bind, preAlloc: acc.env.alloc})
+	fv.spec, fv.info = savedSpec, savedInfo
+	fv.s.assume(implies(t, p))
+	fv.trustedUsed["captured variables of a function literal with an accepts clause keep the value they had when the literal was created"] = true
+}
+
 // Inlined closures.
 
 func (fv *FV) inlineLit(e *Env, lit *ast.FuncLit, args []Value) Value {
@@ -1231,6 +1367,9 @@ func (fv *FV) ghostBuiltin(e *Env, x *ast.CallExpr, fn *types.Func) Value {
 			return Value{K: kScalar, T: Term{fname, ret}, Type: rt}
 		}
 		fv.s.declFun(fname, sorts, ret)
+		if name == "gh_ufb" && fv.strArg(x.Args[0]) == "fnAccepts" && len(vals) >= 1 {
+			fv.instantiateAccepts(vals[0], vals[1:], app(ret, fname, args...))
+		}
 		return Value{K: kScalar, T: app(ret, fname, args...), Type: rt}
 	case "gh_div":
 		return Value{K: kScalar, T: tdiv(fv.expr(e, x.Args[0]).T, fv.expr(e, x.Args[1]).T)}
@@ -1287,6 +1426,15 @@ func (fv *FV) ghostBuiltin(e *Env, x *ast.CallExpr, fn *types.Func) Value {
 			}
 		}
 		fv.specErr("defined() takes a local variable")
+	case "gh_argIs":
+		// argIs(i, v): the i-th argument (0-based) of the call a precall clause guards is v
+		iv := fv.expr(e, x.Args[0])
+		n, err := strconv.Atoi(iv.T.S)
+		if err != nil || fv.spec == nil || fv.spec.callArgs == nil || n < 0 || n >= len(fv.spec.callArgs) {
+			fv.specErr("argIs: needs a literal index of an argument of the guarded call")
+			break
+		}
+		return Value{K: kScalar, T: fv.valueEq(fv.spec.callArgs[n], fv.expr(e, x.Args[1]))}
 	case "gh_sameRef":
 		a, b := fv.expr(e, x.Args[0]), fv.expr(e, x.Args[1])
 		return Value{K: kScalar, T: eq(a.T, b.T)}
